@@ -1,0 +1,78 @@
+//! Verification hooks (feature `verif-hooks`, off by default).
+//!
+//! Add-only, thin `pub` wrappers around crate-private items so that an external harness can
+//! drive them in-process. Nothing in the crate uses this module.
+
+use std::sync::{Arc, Mutex};
+
+use digest::DynDigest;
+
+/// A `DynDigest` that records every byte it is given.
+#[derive(Clone, Default)]
+pub struct RecordingDigest {
+    seen: Arc<Mutex<Vec<u8>>>,
+}
+
+impl RecordingDigest {
+    pub fn new() -> Self {
+        Self::default()
+    }
+
+    pub fn seen(&self) -> Vec<u8> {
+        self.seen.lock().map(|v| v.clone()).unwrap_or_default()
+    }
+}
+
+impl DynDigest for RecordingDigest {
+    fn update(&mut self, data: &[u8]) {
+        if let Ok(mut v) = self.seen.lock() {
+            v.extend_from_slice(data);
+        }
+    }
+
+    fn finalize_into(self, buf: &mut [u8]) -> Result<(), digest::InvalidBufferSize> {
+        buf.fill(0);
+        Ok(())
+    }
+
+    fn finalize_into_reset(&mut self, buf: &mut [u8]) -> Result<(), digest::InvalidBufferSize> {
+        buf.fill(0);
+        Ok(())
+    }
+
+    fn reset(&mut self) {}
+
+    fn output_size(&self) -> usize {
+        32
+    }
+
+    fn box_clone(&self) -> Box<dyn DynDigest> {
+        Box::new(self.clone())
+    }
+}
+
+/// Bytes that `NormalizingHasher` (text or binary mode) hands to its digest when it is fed
+/// `chunks` one `hash_buf` call at a time and then finished with `done`.
+pub fn normalizing_hasher_bytes(chunks: &[&[u8]], text_mode: bool) -> Vec<u8> {
+    let rec = RecordingDigest::new();
+    let mut hasher = crate::util::NormalizingHasher::new(Box::new(rec.clone()), text_mode);
+    for c in chunks {
+        hasher.hash_buf(c);
+    }
+    let _ = hasher.done();
+    rec.seen()
+}
+
+/// `util::fill_buffer`
+pub fn fill_buffer<R: std::io::Read>(
+    source: R,
+    buffer: &mut [u8],
+    chunk_size: Option<usize>,
+) -> std::io::Result<usize> {
+    crate::util::fill_buffer(source, buffer, chunk_size)
+}
+
+/// `normalize_lines::normalize_lines(s, LineBreak::Crlf)` (in-memory canonicalisation).
+pub fn normalize_lines_crlf(s: &str) -> String {
+    crate::normalize_lines::normalize_lines(s, crate::line_writer::LineBreak::Crlf).to_string()
+}
